@@ -183,7 +183,8 @@ def mixes_str_bytes(*names):
 
 
 OPS_ELEMENT = ['series.reindex', 'series.shift', 'series.assign.iloc', 'series.assign.loc', 'series.fillna', 'frame.reindex', 'frame.shift',
-               'frame.assign.iloc', 'frame.fillna', 'frame.from_records', 'frame.from_dict_records', 'index.append', 'frame.assign.bloc']
+               'frame.assign.iloc', 'frame.fillna', 'frame.from_records', 'frame.from_dict_records', 'index.append', 'frame.assign.bloc',
+               'frame2d.assign.iloc', 'frame2d.assign.column', 'frame2d.reindex', 'frame2d.shift', 'frame2d.fillna', 'frame2d.assign.bloc']
 OPS_PAIR = ['series.from_concat', 'frame.from_concat0', 'frame.from_concat1', 'frame.assign.col-array', 'frame.assign.col-series', 'frame.insert_after',
             'frame.values-row', 'frame.iloc-row', 'frame.iter_array1', 'frame.from_items', 'series.from_overlay', 'frame.from_records-rows',
             'frame.relabel-keep-dtype', 'frame.iter_tuple1', 'frame.fillna_forward1', 'frame.fillna_backward1', 'frame.assign-rows-frame-into-2d-block',
@@ -230,6 +231,8 @@ def run_elem(case, ctx):
     other = PROTOS['int8']           # a bystander column that no element operation addresses
     for ename, v in ELEMENTS.items():
         if mixes_str_bytes(pname, ename):
+            continue
+        if ename == 'tuple' and opname.startswith('frame2d.'):
             continue
         if ename == 'tuple' and opname in ('frame.from_records', 'frame.from_dict_records', 'index.append', 'frame.assign.bloc', 'series.fillna', 'frame.fillna',
                                           'series.assign.iloc', 'series.assign.loc', 'frame.assign.iloc'):
@@ -281,6 +284,44 @@ def run_elem(case, ctx):
                 r = f.fillna(v)
                 pairs = zip([v if is_missing(o) else o for o in orig], list(columns_of(r)[0]))
                 untouched(ctx, opname, str(other.dtype), str(columns_of(r)[1].dtype), info, pname, ename)
+            elif opname.startswith('frame2d.'):
+                # the prototype column shares a 2-D block with a twin column; a third column is a bystander of another dtype
+                if proto.dtype == object:
+                    twin = proto
+                    blk = np.empty((2, 2), dtype=object)
+                    blk[:, 0] = proto
+                    blk[:, 1] = proto
+                else:
+                    blk = np.column_stack([proto, proto])
+                blk.flags.writeable = False
+                f2 = sf.Frame(sf.TypeBlocks.from_blocks([blk, other]), index=('x', 'y'), columns=('p', 'p2', 'q'), own_data=True)
+                sub = opname.split('.', 1)[1]
+                if sub == 'assign.iloc':
+                    r = f2.assign.iloc[0, 0](v)
+                    pairs = list(zip([v, orig[1]], list(columns_of(r)[0]))) + list(zip(orig, list(columns_of(r)[1])))
+                    untouched(ctx, opname, str(other.dtype), str(columns_of(r)[2].dtype), info, pname, ename)
+                elif sub == 'assign.column':
+                    r = f2.assign['p'](v)
+                    pairs = list(zip([v, v], list(columns_of(r)[0]))) + list(zip(orig, list(columns_of(r)[1])))
+                    untouched(ctx, opname, (str(proto.dtype), str(other.dtype)), (str(columns_of(r)[1].dtype), str(columns_of(r)[2].dtype)), info, pname, ename)
+                elif sub == 'assign.bloc':
+                    mask = sf.Frame.from_records([[False, False, False], [False, True, False]], index=('x', 'y'), columns=('p', 'p2', 'q'))
+                    r = f2.assign.bloc[mask](v)
+                    pairs = list(zip(orig, list(columns_of(r)[0]))) + list(zip([orig[0], v], list(columns_of(r)[1])))
+                    untouched(ctx, opname, str(other.dtype), str(columns_of(r)[2].dtype), info, pname, ename)
+                elif sub == 'reindex':
+                    r = f2.reindex(index=('y', 'z'), fill_value=v)
+                    pairs = list(zip([orig[1], v], list(columns_of(r)[0]))) + list(zip([orig[1], v], list(columns_of(r)[1]))) + list(zip([other[1], v], list(columns_of(r)[2])))
+                elif sub == 'shift':
+                    r = f2.shift(index=1, fill_value=v)
+                    pairs = list(zip([v, orig[0]], list(columns_of(r)[0]))) + list(zip([v, orig[0]], list(columns_of(r)[1])))
+                else:
+                    if is_missing(v):
+                        continue
+                    r = f2.fillna(v)
+                    exp = [v if is_missing(o) else o for o in orig]
+                    pairs = list(zip(exp, list(columns_of(r)[0]))) + list(zip(exp, list(columns_of(r)[1])))
+                    untouched(ctx, opname, str(other.dtype), str(columns_of(r)[2].dtype), info, pname, ename)
             elif opname == 'frame.from_records':
                 r = sf.Frame.from_records([[orig[0], 1], [v, 2]], columns=('p', 'q'))
                 pairs = zip([orig[0], v], list(columns_of(r)[0]))
